@@ -102,12 +102,15 @@ UNIT = {
               requires=[(None, 'wf(*old(self))')],
               ensures=[('wf', 'wf(*final(self))'), ('frame', 'same_text(*old(self), *final(self))'),
                        ('none', 'r is None ==> final(self).pos == old(self).pos'),
-                       ('some', 'r is Some ==> old(self).pos + 5 < old(self).source.len() && final(self).pos == old(self).pos + 4 && no_nl(old(self).source@, old(self).pos + 2, old(self).pos + 6)')],
+                       ('some', 'r is Some ==> old(self).pos + 5 < old(self).source.len() && final(self).pos == old(self).pos + 4 && no_nl(old(self).source@, old(self).pos + 2, old(self).pos + 6)'),
+                       ('value', 'r is Some ==> (forall|k: int| 0 <= k < 4 ==> spec_is_hex(#[trigger] old(self).source@[old(self).pos + 2 + k])) '
+                                 '&& (r->0) as int == hex_prefix(old(self).source@.subrange(old(self).pos + 2, old(self).pos + 6), 4)')],
               rewrites=[('lit', 'for c in chars', 'for c in it: chars', 1)],   # R5: name the ghost iterator
               loops={0: {'invariant': [
                   ('acc', '(it.index@ == 0 ==> acc == 0) && (it.index@ == 1 ==> acc < 0x10) && (it.index@ == 2 ==> acc < 0x100) && (it.index@ == 3 ==> acc < 0x1000) && (it.index@ == 4 ==> acc < 0x1_0000) && it.index@ <= 4'),
                   ('wf', 'wf(*self) && *self == *old(self) && self.pos + 5 < self.source.len()'),
-                  ('digits', 'it.seq().len() == 4 && (forall|k: int| 0 <= k < 4 ==> #[trigger] it.seq()[k] == self.source@[self.pos + 2 + k]) && (forall|j: int| 0 <= j < it.index@ ==> spec_is_hex(#[trigger] it.seq()[j]))')]}}),
+                  ('digits', 'it.seq().len() == 4 && (forall|k: int| 0 <= k < 4 ==> #[trigger] it.seq()[k] == self.source@[self.pos + 2 + k]) && (forall|j: int| 0 <= j < it.index@ ==> spec_is_hex(#[trigger] it.seq()[j]))'),
+                  ('value', 'acc as int == hex_prefix(it.seq(), it.index@ as int)')]}}),
         lexfn('escape_code', ret='r',
               requires=[(None, 'wf(*old(self))')],
               ensures=[('wf', 'wf(*final(self))'), ('frame', 'same_text(*old(self), *final(self))'),
@@ -181,8 +184,9 @@ def _mk():
         'consume_char': ['C09', 'C07', 'C06'], 'is_ws': ['C07'], 'skip_ws': ['C07', 'C09', 'C06'],
         'skip_line': ['C07', 'C09', 'C06'], 'get_pos': ['C09'], 'get_range': ['C09'],
         'StringLexError::new': ['C09'], 'RawToken::new': ['C09'], 'Token::new': ['C09'], 'skip_char': ['C07', 'C06'],
-        'unicode_code': ['C07', 'C06'], 'escape_code': ['C07', 'C06'], 'acc_string': ['C07', 'C09', 'C06'],
-        'invalid_string': ['C09'], 'next': ['C07', 'C09', 'C06'],
+        # character literals are one of the four notations of C17
+        'unicode_code': ['C07', 'C06', 'C17'], 'escape_code': ['C07', 'C06', 'C17'], 'acc_string': ['C07', 'C09', 'C06', 'C17'],
+        'invalid_string': ['C09'], 'next': ['C07', 'C09', 'C06', 'C17'],
         'RawToken::range': ['C09'], 'Token::range': ['C09'], 'Range::start': ['C09'], 'Range::end': ['C09'],
         'Position::zero_idx_line': ['C09'], 'Position::zero_idx_column': ['C09'],
         'is_symbol_char': ['C07'], 'is_symbol_item': ['C07'],
